@@ -449,11 +449,22 @@ func genSession14(c *Chooser) Session {
 			}
 		}
 	}
+	// the name given to -o may be a symbolic link: the bytes belong in the file
+	// it points to, and the link stays a link
+	if c.Chance(1, 10) {
+		n := []string{"out", "patched"}[c.Int(2)]
+		s.Links = append(s.Links, [2]string{n, n + ".real"})
+	}
 	// a stale earlier result may already sit where -o is going to write
 	if c.Chance(1, 3) {
 		stale := "@ [\"old\"]\n- \"stale output from an earlier run\"\n+ \"" + strings.Repeat("x", c.Range(0, 600)) + "\"\n"
 		for _, n := range []string{"out", "p.diff", "patched"} {
 			if c.Chance(2, 3) {
+				for _, l := range s.Links {
+					if l[0] == n {
+						n = l[1] // the stale result sits where the link points to
+					}
+				}
 				s.Files = append(s.Files, File{n, Blob(stale)})
 			}
 		}
